@@ -61,6 +61,8 @@ def run_structure(run, pid, kind, dialects, cfgs):
         stmt.check_partial_consumption(run, pid + ".R3", f, cfg, partial, select=sel)
         no = stmt.check_order(run, pid + (".R4" if kind == "query" else ".R3"), f, cfg, sel)
         run.floor(pid + (".R4" if kind == "query" else ".R3"), "renderer-calls", no, 200 if kind == "query" else 80, cfg)
+        ne = stmt.check_element_sites(run, pid + ".R3", f, cfg, select=sel)
+        run.floor(pid + ".R3", "element-sites", ne, 25 if kind == "query" else 4, cfg)
         nh = stmt.check_hooks(run, pid + ".R6", f, cfg, select=sel)
         run.floor(pid + ".R6", "hook-calls", nh, 10 if kind == "query" else 3, cfg)
         if kind == "schema":
